@@ -37,6 +37,19 @@ EvConnRet == /\ IsEv("ConnRet") /\ (Ev.af => ~Ev.ok)
                   THEN /\ seen' = seen \cup {Ev.s}
                        /\ st' = IF st[Ev.s] = "none" THEN [st EXCEPT ![Ev.s] = "returned"] ELSE st
                   ELSE Same
+\* connectSync: like connect, and a successful one has been announced by then or is about to be (C04's clauses proper are
+\* decided on the scripted engine, where the completion can be placed at will)
+EvSyncConnCall == IsEv("SyncConnCall") /\ Same
+EvSyncConnRet == /\ IsEv("SyncConnRet") /\ (Ev.af => ~Ev.ok)
+                 /\ IF Ev.ok /\ Ev.s # 0
+                      THEN /\ seen' = seen \cup {Ev.s}
+                           /\ st' = IF st[Ev.s] = "none" THEN [st EXCEPT ![Ev.s] = "returned"] ELSE st
+                      ELSE Same
+EvModeCall == IsEv("ModeCall") /\ Same
+EvModeRet == IsEv("ModeRet") /\ Same
+\* receiveSync: bytes only from a session that has been announced; a call begun after stop() returned gets none
+EvRecvCall == IsEv("RecvCall") /\ Same
+EvRecvRet == IsEv("RecvRet") /\ (Ev.ok => st[Ev.s] \in {"open", "closed"}) /\ Same
 EvSendCall == IsEv("SendCall") /\ Same
 EvSendRet == IsEv("SendRet") /\ (Ev.af => ~Ev.ok) /\ Same
 EvCloseCall == IsEv("CloseCall") /\ Same
@@ -57,7 +70,7 @@ EvEnd == /\ IsEv("End") /\ Ev.outcome \in {"done", "steplimit"}
          /\ (Ev.outcome = "done") => (AllClosed /\ \A i \in Ids : st[i] = "closed" => i \in seen)
          /\ Same
 
-Next == EvBegin \/ EvReset \/ EvAccept \/ EvConnect \/ EvData \/ EvClose \/ EvConnCall \/ EvConnRet \/ EvSendCall \/ EvSendRet
+Next == EvSyncConnCall \/ EvSyncConnRet \/ EvModeCall \/ EvModeRet \/ EvRecvCall \/ EvRecvRet \/ EvBegin \/ EvReset \/ EvAccept \/ EvConnect \/ EvData \/ EvClose \/ EvConnCall \/ EvConnRet \/ EvSendCall \/ EvSendRet
         \/ EvCloseCall \/ EvCloseRet \/ EvListenCall \/ EvListenRet \/ EvPeer \/ EvLifeCall \/ EvLifeRet \/ EvEnd
 Spec == Init /\ [][Next]_vars
 ===============================================================================
